@@ -36,7 +36,24 @@ structure Cfg where
   handoutChecksDead : Bool
   /-- `case <-ctx.Done(): c.releaseWhenReady(conn)` in the creation select -/
   createCancelReleases : Bool
+  /-- the background releaser goes through `release` (offers the connection to a waiter first) -/
+  bgOffersWaiters : Bool
+  /-- `total++` is in the critical section of the limit check (not in `createConnection`) -/
+  totalUnderCheck : Bool
+  /-- `dead` resets the stuck signal on every death (not only when no connection is left) -/
+  resetAlways : Bool
   deriving Repr, DecidableEq
+
+/-- Position of the first occurrence of an operation code in a regenerated operation list. -/
+def opIdx (ops : List Nat) (code : Nat) : Option Nat :=
+  let i := ops.findIdx (· == code)
+  if i < ops.length then some i else none
+
+/-- `a` and `b` occur and the first `a` precedes the first `b`. -/
+def opBefore (ops : List Nat) (a b : Nat) : Bool :=
+  match opIdx ops a, opIdx ops b with
+  | some i, some j => decide (i < j)
+  | _, _ => false
 
 inductive Why | stuck | ctx
   deriving DecidableEq, Repr
@@ -110,6 +127,12 @@ def markDead (s : State) (c : Nat) : State :=
                   conns := s.conns.set c { x with dead := true }, gen := s.gen + 1 }
   | none => s
 
+/-- `DC.dead` as the source has it: when the stuck signal is reset only after the last connection died,
+the generation does not advance while connections remain. -/
+def markDeadCfg (cfg : Cfg) (s : State) (c : Nat) : State :=
+  let s' := markDead s c
+  if cfg.resetAlways ∨ s'.total = 0 then s' else { s' with gen := s.gen }
+
 /-- First entry of the inbox with key `k`, and the inbox without it (one channel receive). -/
 def takeKey (k : Nat) : List (Nat × Nat) → Option (Nat × List (Nat × Nat))
   | [] => none
@@ -142,7 +165,7 @@ def step (cfg : Cfg) (s : State) : Action → Option State
         | c :: fs => some (setPc { s with free := fs } i x (.check c))
         | [] =>
           if s.max = 0 ∨ s.total < s.max then
-            some (setPc { s with total := s.total + 1 } i x .reserved)
+            some (setPc { s with total := if cfg.totalUnderCheck then s.total + 1 else s.total } i x .reserved)
           else
             some (setPc { s with reqs := s.reqs ++ [s.nextKey], nextKey := s.nextKey + 1 }
                         i x (.waiting s.nextKey s.gen))
@@ -152,7 +175,8 @@ def step (cfg : Cfg) (s : State) : Action → Option State
     match s.callers[i]? with
     | some x =>
       if x.pc = .reserved then
-        some (setPc { s with conns := s.conns ++ [{ dead := false, ready := false, orphan := false }] }
+        some (setPc { s with total := if cfg.totalUnderCheck then s.total else s.total + 1,
+                             conns := s.conns ++ [{ dead := false, ready := false, orphan := false }] }
                     i x (.creating s.conns.length))
       else none
     | none => none
@@ -221,7 +245,7 @@ def step (cfg : Cfg) (s : State) : Action → Option State
       match x.pc with
       | .using c =>
         if r = .retry ∧ x.cancelled = false then
-          if k? = none then some (setPc (markDead s c) i x .start) else none
+          if k? = none then some (setPc (markDeadCfg cfg s c) i x .start) else none
         else
           match release s c k? with
           | some s1 => some (setPc s1 i x .done)
@@ -234,7 +258,7 @@ def step (cfg : Cfg) (s : State) : Action → Option State
     | none => none
   | .die c =>
     match s.conns[c]? with
-    | some _ => some (markDead s c)
+    | some _ => some (markDeadCfg cfg s c)
     | none => none
   | .cancel i =>
     match s.callers[i]? with
@@ -246,7 +270,10 @@ def step (cfg : Cfg) (s : State) : Action → Option State
       if cn.orphan then
         let s1 := { s with conns := s.conns.set c { cn with orphan := false } }
         if rel then
-          if cn.ready then release s1 c k? else none
+          if cn.ready then
+            if cfg.bgOffersWaiters then release s1 c k?
+            else if k? = none then some { s1 with free := c :: s1.free } else none
+          else none
         else
           if cn.dead ∧ k? = none then some s1 else none
       else none
